@@ -1235,27 +1235,50 @@ INTEGER_compare(const asn_TYPE_descriptor_t *td, const void *aptr,
     (void)td;
 
     if(a && b) {
-        if(a->size && b->size) {
-            int sign_a = (a->buf[0] & 0x80) ? -1 : 1;
-            int sign_b = (b->buf[0] & 0x80) ? -1 : 1;
+        const uint8_t *abuf = a->buf;
+        const uint8_t *bbuf = b->buf;
+        size_t asize = abuf ? a->size : 0;
+        size_t bsize = bbuf ? b->size : 0;
+
+        /*
+         * Skip the redundant leading octets (X.690 #8.3.2),
+         * the value might not be stored in a canonical form.
+         */
+        for(; asize > 1; abuf++, asize--) {
+            if((abuf[0] == 0x00 && !(abuf[1] & 0x80))
+               || (abuf[0] == 0xff && (abuf[1] & 0x80)))
+                continue;
+            break;
+        }
+        for(; bsize > 1; bbuf++, bsize--) {
+            if((bbuf[0] == 0x00 && !(bbuf[1] & 0x80))
+               || (bbuf[0] == 0xff && (bbuf[1] & 0x80)))
+                continue;
+            break;
+        }
+
+        if(asize && bsize) {
+            int sign_a = (abuf[0] & 0x80) ? -1 : 1;
+            int sign_b = (bbuf[0] & 0x80) ? -1 : 1;
 
             if(sign_a < sign_b) return -1;
             if(sign_a > sign_b) return 1;
 
             /* The shortest integer wins, unless comparing negatives */
-            if(a->size < b->size) {
+            if(asize < bsize) {
                 return -1 * sign_a;
-            } else if(a->size > b->size) {
+            } else if(asize > bsize) {
                 return 1 * sign_b;
             }
 
-            return sign_a * memcmp(a->buf, b->buf, a->size);
-        } else if(a->size) {
-            int sign = (a->buf[0] & 0x80) ? -1 : 1;
-            return (1) * sign;
-        } else if(b->size) {
-            int sign = (a->buf[0] & 0x80) ? -1 : 1;
-            return (-1) * sign;
+            return sign_a * memcmp(abuf, bbuf, asize);
+        } else if(asize) {
+            /* An empty buffer stands for zero */
+            if(abuf[0] & 0x80) return -1;
+            return (asize == 1 && abuf[0] == 0) ? 0 : 1;
+        } else if(bsize) {
+            if(bbuf[0] & 0x80) return 1;
+            return (bsize == 1 && bbuf[0] == 0) ? 0 : -1;
         } else {
             return 0;
         }
